@@ -77,6 +77,10 @@ pub const ALGS: [&str; 10] = [
     "CRC_64_ECMA_182", "CRC_64_XZ", "CRC_82_DARC",
 ];
 
+pub fn alg_refin(a: &str) -> bool {
+    matches!(a, "CRC_8_MAXIM_DOW" | "CRC_16_IBM_SDLC" | "CRC_32_ISO_HDLC" | "CRC_64_XZ" | "CRC_82_DARC")
+}
+
 pub fn alg_nbytes(a: &str) -> usize {
     match a {
         "CRC_8_SMBUS" | "CRC_8_MAXIM_DOW" => 1,
@@ -162,36 +166,36 @@ pub const HVEC_ALGS: [&str; 5] = ["CRC_8_SMBUS", "CRC_16_XMODEM", "CRC_32_ISO_HD
 
 fn crc_take(alg: &str, t: &DTy, bytes: &[u8]) -> Option<DeRes> {
     use postcard::de_flavors::crc as c;
-    macro_rules! run { ($f:path, $ty:ty, $a:expr) => {{ let k = crc::Crc::<$ty>::new(&$a); Some(with_ty(t, || $f::<DynVal>(bytes, k.digest()).map(|(v, r)| (v.0, r.to_vec())).map_err(|e| err_name(&e)))) }}; }
+    macro_rules! run { ($f:ident, $ty:ty, $a:expr) => {{ let k = crc::Crc::<$ty>::new(&$a); Some(with_ty(t, || c::$f::<DynVal>(bytes, k.digest()).map(|(v, r)| (v.0, r.to_vec())).map_err(|e| err_name(&e)))) }}; }
     match alg {
-        "CRC_8_SMBUS" => run!(c::take_from_bytes_u8, u8, crc::CRC_8_SMBUS),
-        "CRC_8_MAXIM_DOW" => run!(c::take_from_bytes_u8, u8, crc::CRC_8_MAXIM_DOW),
-        "CRC_12_UMTS" => run!(c::take_from_bytes_u16, u16, crc::CRC_12_UMTS),
-        "CRC_16_IBM_SDLC" => run!(c::take_from_bytes_u16, u16, crc::CRC_16_IBM_SDLC),
-        "CRC_16_XMODEM" => run!(c::take_from_bytes_u16, u16, crc::CRC_16_XMODEM),
-        "CRC_32_ISO_HDLC" => run!(c::take_from_bytes_u32, u32, crc::CRC_32_ISO_HDLC),
-        "CRC_32_BZIP2" => run!(c::take_from_bytes_u32, u32, crc::CRC_32_BZIP2),
-        "CRC_64_ECMA_182" => run!(c::take_from_bytes_u64, u64, crc::CRC_64_ECMA_182),
-        "CRC_64_XZ" => run!(c::take_from_bytes_u64, u64, crc::CRC_64_XZ),
-        "CRC_82_DARC" => run!(c::take_from_bytes_u128, u128, crc::CRC_82_DARC),
+        "CRC_8_SMBUS" => run!(take_from_bytes_u8, u8, crc::CRC_8_SMBUS),
+        "CRC_8_MAXIM_DOW" => run!(take_from_bytes_u8, u8, crc::CRC_8_MAXIM_DOW),
+        "CRC_12_UMTS" => run!(take_from_bytes_u16, u16, crc::CRC_12_UMTS),
+        "CRC_16_IBM_SDLC" => run!(take_from_bytes_u16, u16, crc::CRC_16_IBM_SDLC),
+        "CRC_16_XMODEM" => run!(take_from_bytes_u16, u16, crc::CRC_16_XMODEM),
+        "CRC_32_ISO_HDLC" => run!(take_from_bytes_u32, u32, crc::CRC_32_ISO_HDLC),
+        "CRC_32_BZIP2" => run!(take_from_bytes_u32, u32, crc::CRC_32_BZIP2),
+        "CRC_64_ECMA_182" => run!(take_from_bytes_u64, u64, crc::CRC_64_ECMA_182),
+        "CRC_64_XZ" => run!(take_from_bytes_u64, u64, crc::CRC_64_XZ),
+        "CRC_82_DARC" => run!(take_from_bytes_u128, u128, crc::CRC_82_DARC),
         _ => None,
     }
 }
 
 fn crc_from(alg: &str, t: &DTy, bytes: &[u8]) -> Option<Result<DVal, &'static str>> {
     use postcard::de_flavors::crc as c;
-    macro_rules! run { ($f:path, $ty:ty, $a:expr) => {{ let k = crc::Crc::<$ty>::new(&$a); Some(with_ty(t, || $f::<DynVal>(bytes, k.digest()).map(|v| v.0).map_err(|e| err_name(&e)))) }}; }
+    macro_rules! run { ($f:ident, $ty:ty, $a:expr) => {{ let k = crc::Crc::<$ty>::new(&$a); Some(with_ty(t, || c::$f::<DynVal>(bytes, k.digest()).map(|v| v.0).map_err(|e| err_name(&e)))) }}; }
     match alg {
-        "CRC_8_SMBUS" => run!(c::from_bytes_u8, u8, crc::CRC_8_SMBUS),
-        "CRC_8_MAXIM_DOW" => run!(c::from_bytes_u8, u8, crc::CRC_8_MAXIM_DOW),
-        "CRC_12_UMTS" => run!(c::from_bytes_u16, u16, crc::CRC_12_UMTS),
-        "CRC_16_IBM_SDLC" => run!(c::from_bytes_u16, u16, crc::CRC_16_IBM_SDLC),
-        "CRC_16_XMODEM" => run!(c::from_bytes_u16, u16, crc::CRC_16_XMODEM),
-        "CRC_32_ISO_HDLC" => run!(c::from_bytes_u32, u32, crc::CRC_32_ISO_HDLC),
-        "CRC_32_BZIP2" => run!(c::from_bytes_u32, u32, crc::CRC_32_BZIP2),
-        "CRC_64_ECMA_182" => run!(c::from_bytes_u64, u64, crc::CRC_64_ECMA_182),
-        "CRC_64_XZ" => run!(c::from_bytes_u64, u64, crc::CRC_64_XZ),
-        "CRC_82_DARC" => run!(c::from_bytes_u128, u128, crc::CRC_82_DARC),
+        "CRC_8_SMBUS" => run!(from_bytes_u8, u8, crc::CRC_8_SMBUS),
+        "CRC_8_MAXIM_DOW" => run!(from_bytes_u8, u8, crc::CRC_8_MAXIM_DOW),
+        "CRC_12_UMTS" => run!(from_bytes_u16, u16, crc::CRC_12_UMTS),
+        "CRC_16_IBM_SDLC" => run!(from_bytes_u16, u16, crc::CRC_16_IBM_SDLC),
+        "CRC_16_XMODEM" => run!(from_bytes_u16, u16, crc::CRC_16_XMODEM),
+        "CRC_32_ISO_HDLC" => run!(from_bytes_u32, u32, crc::CRC_32_ISO_HDLC),
+        "CRC_32_BZIP2" => run!(from_bytes_u32, u32, crc::CRC_32_BZIP2),
+        "CRC_64_ECMA_182" => run!(from_bytes_u64, u64, crc::CRC_64_ECMA_182),
+        "CRC_64_XZ" => run!(from_bytes_u64, u64, crc::CRC_64_XZ),
+        "CRC_82_DARC" => run!(from_bytes_u128, u128, crc::CRC_82_DARC),
         _ => None,
     }
 }
@@ -770,7 +774,13 @@ pub fn gen_c10(r: &mut Rng, thorough: bool, out: &mut Vec<String>) {
                             c[b / 8] ^= if lsb_first { 1 << (b % 8) } else { 0x80 >> (b % 8) };
                         }
                     }
-                    out.push(format!("crcdex {} {} {} {}", alg, t, paylen, hex(&c)));
+                    // a burst is contiguous in the algorithm's own bit order (LSB-first within bytes
+                    // when refin); in the other order it is just multi-bit damage with no guarantee
+                    if lsb_first == alg_refin(alg) {
+                        out.push(format!("crcdex {} {} {} {}", alg, t, paylen, hex(&c)));
+                    } else {
+                        out.push(format!("crcde {} {} {}", alg, t, hex(&c)));
+                    }
                 }
             }
         }
